@@ -18,8 +18,8 @@
 
   The places where today's source differs from the source the design was written against are facts (`Cfg`),
   regenerated from /repo: `arrayGuard` (matchFilter leaves the array case unless the filter asks for an array),
-  `maxNilCheck` (apply tests `Max != nil` before dereferencing) and `dupCheck` (Resolve rejects a second entry
-  for the same input descriptor).
+  `maxNilCheck` (apply tests `Max != nil` before dereferencing), `dupCheck` (Resolve rejects a second entry for the
+  same input descriptor), `maxCheckFirst` and `minMaxCheck` (apply honours `max: 0` and rejects `min > max`).
 -/
 import NutsModel.Base
 
@@ -47,10 +47,15 @@ structure Cfg where
   /-- `Resolve`: a descriptor-map entry whose id was already resolved is an error (old code: the later entry
       silently replaces the earlier one) -/
   dupCheck : Bool
+  /-- `apply`: the "take max" loop tests `index == *Max` BEFORE taking a member (old code: after, so `max: 0`
+      took every selectable member) -/
+  maxCheckFirst : Bool
+  /-- `apply`: a `pick` rule with `min > max` is reported as not fulfillable (old code: returned `max` members) -/
+  minMaxCheck : Bool
   deriving Repr, DecidableEq
 
-def Cfg.fixed : Cfg := { arrayGuard := true, maxNilCheck := true, dupCheck := true }
-def Cfg.old : Cfg := { arrayGuard := false, maxNilCheck := false, dupCheck := false }
+def Cfg.fixed : Cfg := { arrayGuard := true, maxNilCheck := true, dupCheck := true, maxCheckFirst := true, minMaxCheck := true }
+def Cfg.old : Cfg := { arrayGuard := false, maxNilCheck := false, dupCheck := false, maxCheckFirst := false, minMaxCheck := false }
 
 /-! ### JSONPath subset -/
 
@@ -320,6 +325,12 @@ def takeLoop (lim : Nat) : Nat → List Member → List Cred
   | i, some l :: ms => if i + 1 == lim then l else l ++ takeLoop lim (i + 1) ms
   | i, none :: ms => if i == lim then [] else takeLoop lim i ms
 
+/-- `for _, member := range list { if i == lim {break}; if !member.empty() {append; i++} }` -/
+def takeLoopPre (lim : Nat) : Nat → List Member → List Cred
+  | _, [] => []
+  | i, some l :: ms => if i == lim then [] else l ++ takeLoopPre lim (i + 1) ms
+  | i, none :: ms => if i == lim then [] else takeLoopPre lim i ms
+
 def flattenAll : List Member → List Cred
   | [] => []
   | some l :: ms => l ++ flattenAll ms
@@ -333,10 +344,16 @@ def belowMin (min : Option Nat) (n : Nat) : Bool :=
   | some m => decide (n < m)
   | none => false
 
+/-- `Min != nil && Max != nil && *Max < *Min` -/
+def minAboveMax (min max : Option Nat) : Bool :=
+  match min, max with
+  | some a, some b => decide (b < a)
+  | _, _ => false
+
 /-- the last loop of `apply` ("take max"): `index == *submissionRequirement.Max` -/
 def applyMax (cfg : Cfg) (list : List Member) (max : Option Nat) : Res (List Cred) :=
   match max with
-  | some m => .ok (takeLoop m 0 list)
+  | some m => .ok (if cfg.maxCheckFirst then takeLoopPre m 0 list else takeLoop m 0 list)
   | none =>
     if cfg.maxNilCheck then .ok (flattenAll list)
     else if list.isEmpty then .ok [] else .panic "nil-deref"     -- `*submissionRequirement.Max`
@@ -348,7 +365,9 @@ def apply (cfg : Cfg) (list : List Member) (rule : String) (count min max : Opti
   else
   match count with
   | some c => if selectableCount list < c then .err "nocred" else .ok (takeLoop c 0 list)
-  | none => if belowMin min (selectableCount list) then .err "nocred" else applyMax cfg list max
+  | none =>
+    if cfg.minMaxCheck && minAboveMax min max then .err "nocred"
+    else if belowMin min (selectableCount list) then .err "nocred" else applyMax cfg list max
 
 /-- a candidate: the input descriptor and the first credential of the wallet that matches it -/
 abbrev Cand := Desc × Option Cred
